@@ -8,6 +8,7 @@ import (
 	"encoding/hex"
 	"encoding/json"
 	"fmt"
+	"github.com/obolnetwork/charon/testutil"
 	"math/rand"
 	"os"
 	"path/filepath"
@@ -634,6 +635,23 @@ func bases(t *testing.T) []base {
 			out = append(out, assembledBase(t, shape{version: v, dv: sh[0], k: sh[1], n: sh[2], seed: 11 + i, amountsEth: [][]int{{8, 24}, {32}, {1, 2, 29}, nil}[i%4], compound: i%2 == 0, consensus: []string{"", "qbft"}[i%2]}))
 		}
 	}
+	// ... and, for the versions that carry builder registrations, one whose first validator's fee recipient address
+	// ends in a zero byte (a value that keeps its padded hash when trailing zero bytes are cut off): the seed of
+	// the repository's own generator is searched for it
+	zeroTailSeed := 0
+	for sd := 1; sd < 40000 && zeroTailSeed == 0; sd++ {
+		if strings.HasSuffix(testutil.RandomETHAddressSeed(rand.New(rand.NewSource(int64(sd)))), "00") {
+			zeroTailSeed = sd
+		}
+	}
+	if zeroTailSeed == 0 {
+		t.Fatalf("HARNESS-ERROR: no generator seed gives a fee recipient ending in a zero byte")
+	}
+	for _, v := range allVersions {
+		if verNum(v) >= 7 {
+			out = append(out, assembledBase(t, shape{version: v, dv: 1, k: 2, n: 3, seed: zeroTailSeed, amountsEth: []int{32}}))
+		}
+	}
 	// v1.11 locks whose creator / operator signatures are Safe multisig signatures (several concatenated
 	// 65 byte signatures): they cannot be verified without an execution client, so hash verification only
 	for i, cnt := range []int{2, 3, 5} {
@@ -684,6 +702,27 @@ func alterScalar(cur any, kind string, pos int) (any, bool) {
 				return nil, false
 			}
 			return json.Number("0"), true
+		}
+		return nil, false
+	}
+	if kind == "shorten" { // the value made shorter: the last byte / digit cut off (also when it is a zero)
+		switch v := cur.(type) {
+		case string:
+			if strings.HasPrefix(v, "0x") {
+				if len(v) < 6 {
+					return nil, false
+				}
+				return v[:len(v)-2], true
+			}
+			if len(v) < 2 {
+				return nil, false
+			}
+			return v[:len(v)-1], true
+		case json.Number:
+			if len(string(v)) < 2 {
+				return nil, false
+			}
+			return json.Number(string(v)[:len(string(v))-1]), true
 		}
 		return nil, false
 	}
@@ -847,7 +886,7 @@ func TestC12Tamper(t *testing.T) {
 		if unhashed.MatchString(path) || (!b.full && signatureOnly.MatchString(path)) {
 			return false, false
 		}
-		if kind == "extend" && !b.full {
+		if (kind == "extend" || kind == "shorten") && !b.full {
 			// zero bytes appended to a fixed-size value are refused by the length checks of signature
 			// verification (keys, signatures), which a hash-only base cannot run: full bases only
 			vstat.Count("extend_on_hash_only_base(no assertion)", 1)
@@ -895,9 +934,9 @@ func TestC12Tamper(t *testing.T) {
 			var ls, arrs []leaf
 			collectLeaves(root, "", nil, "", 0, &ls, &arrs)
 			for _, l := range ls {
-				for _, kind := range []string{"plus1", "flip", "empty", "removeKey", "extend"} {
+				for _, kind := range []string{"plus1", "flip", "empty", "removeKey", "extend", "shorten"} {
 					for _, pos := range []int{0, 3, 17, 141, 300, 1<<20 - 1} {
-						if (kind == "empty" && pos > 3) || (kind == "removeKey" && pos > 0) || (kind == "extend" && pos > 17) {
+						if (kind == "empty" && pos > 3) || (kind == "removeKey" && pos > 0) || (kind == "extend" && pos > 17) || (kind == "shorten" && pos > 0) {
 							continue
 						}
 						if a, _ := check(func(f string, a ...any) { t.Fatalf(f, a...) }, b, l.path, kind, pos, false); a {
@@ -935,7 +974,7 @@ func TestC12Tamper(t *testing.T) {
 			kind = rapid.SampledFrom([]string{"remove", "duplicate", "swap"}).Draw(rt, "arrayKind")
 		} else {
 			path = ls[rapid.IntRange(0, len(ls)-1).Draw(rt, "leaf")].path
-			kind = rapid.SampledFrom([]string{"plus1", "flip", "plus1", "flip", "empty", "removeKey", "extend"}).Draw(rt, "kind")
+			kind = rapid.SampledFrom([]string{"plus1", "flip", "plus1", "flip", "empty", "removeKey", "extend", "shorten"}).Draw(rt, "kind")
 		}
 		pos := rapid.IntRange(0, 2000).Draw(rt, "pos")
 		asserted, skipped := check(func(f string, a ...any) { rt.Fatalf(f, a...) }, b, path, kind, pos, arrayOp)
